@@ -601,6 +601,7 @@ class t2listing(object):
             nextpt = line.find('.', pt + 1)
             if nextpt < 0 : nextpt = len(line)
             s = line[pt + 1: nextpt - 1].lower()
+            if s.split(): s = s.split()[0] # the sign of the next value is not an exponent sign
             exponential = s.find('e') >= 0 or s.find('+') >= 0 or s.find('-') >= 0
             if exponential:
                 c = line[pt - 2]
